@@ -143,11 +143,11 @@ class FieldCompositeModel(FieldModel):
         if self.is_used_rand and self.rand_if is not None:
             self.rand_if.do_pre_randomize()
 
+        # Each object is called once per call, however many paths lead to it
         visited.append(self)
         for f in self.field_l:
             if f not in visited:
                 f.pre_randomize(visited)
-        visited.remove(self)
     
     def post_randomize(self, visited):
         """Called during the randomization process to propagate `post_randomize` event"""
@@ -160,7 +160,6 @@ class FieldCompositeModel(FieldModel):
         for f in self.field_l:
             if f not in visited:
                 f.post_randomize(visited)
-        visited.remove(self)
 
     def accept(self, v):
         v.visit_composite_field(self)
